@@ -1,7 +1,6 @@
 package routingh
 
 import (
-	"fmt"
 	"math/big"
 	"net"
 	"strings"
@@ -14,11 +13,11 @@ import (
 type Gen struct {
 	R       *vh.Rand
 	Profile string // "cidr" | "keyed" | "all"
-	Nets    []*Net
-	Addrs   []Op // lookup ops over the address pool
+	Pools          // Nets and Strs are fixed when the generator is made
 	Names   []string
 	Pats    []string
 	Keys    []string
+	Targets []string
 }
 
 // canonical nesting / overlapping prefixes
@@ -33,42 +32,6 @@ var oddPrefixes = []string{
 	"10.1.2.3/8", "10.1.2.3/24", "10.200.0.1/9", "192.168.1.77/16", "2001:db8::5/32", "2001:db8:0:1::9/48",
 	"6:::ffff:10.0.0.0/104", "6:::ffff:10.1.0.0/112", "6:::ffff:0.0.0.0/96", "6:::ffff:10.1.2.3/128", "6:::ffff:10.1.2.9/120",
 	"6:::ffff:10.0.0.0/90", "10.0.0.0/33", "10.0.0.0/200", "2001:db8::/129", "6:::ffff:10.0.0.0/130",
-}
-
-func addrOp(is16 int, v *big.Int) Op { return Op{Code: OpLookup, Is16: is16, Addr: v.String()} }
-
-// boundaryAddrs returns lookups on and around the edges of a network.
-func boundaryAddrs(n *Net) []Op {
-	bits := 32
-	if n.Fam == 6 {
-		bits = 128
-	}
-	ones := n.Ones
-	if ones > bits {
-		ones = bits
-	}
-	ip := bigOf(n.IP)
-	host := new(big.Int).Lsh(big.NewInt(1), uint(bits-ones))
-	base := new(big.Int).Div(ip, host)
-	base.Mul(base, host)
-	last := new(big.Int).Add(base, host)
-	last.Sub(last, big.NewInt(1))
-	max := new(big.Int).Lsh(big.NewInt(1), uint(bits))
-	var out []Op
-	for _, v := range []*big.Int{base, new(big.Int).Add(base, big.NewInt(1)), last, new(big.Int).Add(last, big.NewInt(1)), new(big.Int).Sub(base, big.NewInt(1)), ip} {
-		if v.Sign() < 0 || v.Cmp(max) >= 0 {
-			continue
-		}
-		if n.Fam == 4 {
-			out = append(out, addrOp(0, v))
-			// the same address in 16-byte IPv4-mapped form
-			m := new(big.Int).Lsh(big.NewInt(0xffff), 32)
-			out = append(out, addrOp(1, m.Add(m, v)))
-		} else {
-			out = append(out, addrOp(1, v))
-		}
-	}
-	return out
 }
 
 var labels = []string{"a", "B", "api", "Www", "x-1"}
@@ -97,17 +60,6 @@ func NewGen(r *vh.Rand, profile string) *Gen {
 	for _, i := range perm(len(oddPrefixes))[:no] {
 		g.Nets = append(g.Nets, MustNet(oddPrefixes[i]))
 	}
-	seen := map[string]bool{}
-	for _, n := range g.Nets {
-		for _, a := range boundaryAddrs(n) {
-			k := fmt.Sprint(a.Is16, a.Addr)
-			if !seen[k] {
-				seen[k] = true
-				g.Addrs = append(g.Addrs, a)
-			}
-		}
-	}
-	g.Addrs = append(g.Addrs, Op{Code: OpLookup, Is16: 2, Addr: "0"})
 	// domain names / patterns
 	for i := 0; i < 6; i++ {
 		nm := slds[r.Intn(len(slds))] + "." + tlds[r.Intn(len(tlds))]
@@ -136,6 +88,18 @@ func NewGen(r *vh.Rand, profile string) *Gen {
 	if r.Chance(1, 2) {
 		g.Keys = append(g.Keys, "")
 	}
+	g.Targets = []string{"h:1", "10.0.0.1:80", ""}
+	if profile != "cidr" {
+		for _, s := range g.Pats {
+			g.strIdx(s)
+		}
+		for _, s := range g.Keys {
+			g.strIdx(s)
+		}
+		for _, s := range g.Targets {
+			g.strIdx(s)
+		}
+	}
 	return g
 }
 
@@ -154,7 +118,7 @@ func flipCase(r *vh.Rand, s string) string {
 	return string(b)
 }
 
-func (g *Gen) net() *Net      { return g.Nets[g.R.Intn(len(g.Nets))] }
+func (g *Gen) net() *Net { return g.Nets[g.R.Intn(len(g.Nets))] }
 func (g *Gen) origin() int {
 	if g.R.Chance(1, 12) {
 		return 0 // a remote advertisement claiming the local agent as origin
@@ -208,35 +172,6 @@ func (g *Gen) ageMs(d *Dump, tables []string, nowMs int64) int64 {
 
 func (g *Gen) tick() Op {
 	return Op{Code: OpTick, Ms: int64(g.R.Pick(1, 1, 499, 500, 1000, 1000, 5000, 60000))}
-}
-
-func (g *Gen) nameForLookup() string {
-	r := g.R
-	var s string
-	if r.Chance(3, 4) && len(g.Pats) > 0 {
-		s = strings.TrimPrefix(strings.TrimSpace(g.Pats[r.Intn(len(g.Pats))]), "*.")
-		if r.Chance(1, 8) {
-			s = g.Pats[r.Intn(len(g.Pats))] // raw pattern, including "*." and blanks
-		}
-	} else {
-		s = g.Names[r.Intn(len(g.Names))]
-	}
-	switch r.Intn(8) {
-	case 0, 1, 2:
-		s = labels[r.Intn(len(labels))] + "." + s // one label deeper: wildcard territory
-	case 3:
-		s = labels[r.Intn(len(labels))] + "." + labels[r.Intn(len(labels))] + "." + s // two labels deeper
-	case 4:
-		s = "." + s
-	case 5:
-		if r.Chance(1, 2) {
-			s += "."
-		}
-	}
-	if r.Chance(1, 2) {
-		s = flipCase(r, s)
-	}
-	return s
 }
 
 // Next returns the next mutating (or tick) operation.
@@ -309,7 +244,7 @@ func (g *Gen) Next(d *Dump, nowMs int64) Op {
 		}
 	case "fwd":
 		key := func() string { return g.Keys[r.Intn(len(g.Keys))] }
-		tgt := func() string { return []string{"h:1", "10.0.0.1:80", ""}[r.Pick(0, 0, 1, 1, 2)] }
+		tgt := func() string { return g.Targets[r.Pick(0, 0, 1, 1, 2)] }
 		switch x := r.Intn(100); {
 		case x < 50:
 			peer := g.peer()
@@ -362,9 +297,13 @@ func (g *Gen) Lookups(k int) []Op {
 		}
 		switch fam {
 		case "cidr":
-			out = append(out, g.Addrs[r.Intn(len(g.Addrs))])
+			if r.Chance(1, 40) {
+				out = append(out, Op{Code: OpLookup, Is16: 2, Addr: "0"})
+			} else {
+				out = append(out, Op{Code: OpLookupB, Idx: r.Intn(len(g.Nets)), K: r.Intn(12)})
+			}
 		case "domain":
-			out = append(out, Op{Code: OpDLookup, Name: g.nameForLookup()})
+			out = append(out, Op{Code: OpDLookupD, Idx: r.Intn(len(g.Strs)), K: r.Intn(8)})
 		case "fwd":
 			out = append(out, Op{Code: OpFLookup, Name: g.Keys[r.Intn(len(g.Keys))]})
 		default:
@@ -374,24 +313,18 @@ func (g *Gen) Lookups(k int) []Op {
 	return out
 }
 
-// AllLookups returns the complete lookup pool (run at the end of a history).
+// AllLookups returns the "look up everything" operations of the profile.
 func (g *Gen) AllLookups() []Op {
 	var out []Op
 	if g.Profile == "cidr" || g.Profile == "all" {
-		out = append(out, g.Addrs...)
+		out = append(out, Op{Code: OpLookupAll})
 	}
 	if g.Profile == "keyed" || g.Profile == "all" {
-		for i := 0; i < 24; i++ {
-			out = append(out, Op{Code: OpDLookup, Name: g.nameForLookup()})
-		}
-		for _, k := range g.Keys {
-			out = append(out, Op{Code: OpFLookup, Name: k})
-		}
-		for a := 0; a < 7; a++ {
-			out = append(out, Op{Code: OpALookup, Agent: a})
-		}
+		out = append(out, Op{Code: OpDLookupAll}, Op{Code: OpFLookupAll}, Op{Code: OpALookupAll})
 	}
 	return out
 }
 
 var _ = net.IPv4len
+var _ = big.NewInt
+var _ = strings.TrimSpace
